@@ -78,6 +78,9 @@ pub enum Error {
     #[error("Invalid backup version number {:?}", version)]
     InvalidVersion { version: String },
 
+    #[error("Index hunk {hunk_number} was listed but cannot be found")]
+    IndexHunkMissing { hunk_number: u32 },
+
     #[error("Band {band_id} head file missing")]
     BandHeadMissing { band_id: BandId },
 
